@@ -23,7 +23,7 @@ def plans_of(r):
     return r.prints("REPLAY")
 
 
-def validate(chk, beh, label):
+def validate(chk, beh, label, prefixes=("C19.", "Any.Crash")):
     w = chk.work
     bpath = os.path.join(w, label + ".beh.ndjson")
     tpath = os.path.join(w, label + ".trace.ndjson")
@@ -55,7 +55,11 @@ def validate(chk, beh, label):
     chk.cov["traces_validated_against_impl"] += len(runs)
     chk.cov["distinct_nontrivial"] += len({json.dumps([b["cfg"], b["cers"], b["lock"], b["order"]]) for b in beh})
     per = {}
+    other = {}
     for v in sorted(res["viol"], key=lambda v: v["l"]):
+        if not any(v["inv"].startswith(p) for p in prefixes):
+            other[v["inv"]] = other.get(v["inv"], 0) + 1
+            continue
         per[v["inv"]] = per.get(v["inv"], 0) + 1
         if per[v["inv"]] > 2:
             continue
@@ -68,12 +72,28 @@ def validate(chk, beh, label):
                           json.dumps([[e["cer"], e["d"]["ok"], e["d"]["ctr"]] for e in run if e["ev"] == "End"])),
                       {"kind": "conc", "behaviour": b, "events": run})
     chk.cov.setdefault("invariant_failures", {}).update(per)
+    if other:
+        chk.note("invariants of other properties false in %s (reported by their own checks): %s" % (label, other))
     if res["drift"]:
         d = sorted(res["drift"], key=lambda d: d["l"])[0]
         chk.note("model-drift: %d event(s) of %s not explained by layer B (first: %s)" % (len(res["drift"]), label, json.dumps(events[d["l"] - 1])[:300]))
     chk.sample({"from": label, "behaviour": {k: beh[len(beh) // 3][k] for k in ("lock", "order")},
                 "ceremonies": [c["op"] for c in beh[len(beh) // 3]["cers"]]}, cap=4)
     os.remove(tpath)
+
+
+def pairs(chk, cfgname, label, prefixes, known_check=True):
+    """every interleaving of a pairs configuration: model-check, export, realise on the code, validate"""
+    r = vlib.tlc("ConcMC.tla", cfgname, chk.work, workers=8, coverage=True, timeout=3600, xmx="8g")
+    if r.invariant_violated:
+        chk.violation({"inv": "model:" + r.invariant_violated[0], "cfg": cfgname},
+                      "the model (Concurrent.tla, %s) violates %s: %s" % (
+                          cfgname, r.invariant_violated[0], [ln for ln in r.out.splitlines() if ln.startswith('<<"VIOLATED"')][:1]),
+                      {"kind": "tlc", "cfg": cfgname, "out": r.out[-5000:]})
+        return False
+    chk.model_run(cfgname, r, expect_actions=["AskAny", "DoAny", "RelAny", "LocalAny", "Finish"])
+    validate(chk, plans_of(r), label, prefixes)
+    return True
 
 
 def run(chk):
